@@ -140,6 +140,9 @@ Fixpoint final_from (st : state) (ops : list op) : state :=
 
 Definition run (ops : list op) : list out := run_from init ops.
 Definition final (ops : list op) : state := final_from init ops.
+(* the result of operation o when it is performed after the history ops
+   (run (ops ++ [o]) = run ops ++ [next ops o], see C20_next) *)
+Definition next (ops : list op) (o : op) : out := snd (step (final ops) o).
 (* the observable history: every operation with its result *)
 Definition trace (ops : list op) : list (op * out) := combine ops (run ops).
 End Machine.
@@ -552,7 +555,7 @@ Definition unresolved (ops : list op) : Prop :=
 Fixpoint once_expect (ops : list op) : list out :=
   match ops with
   | [] => []
-  | Notify v :: post => firstn (npolls post) (OItem v CFalse :: repeat OEnd (npolls post))
+  | Notify v :: post => match npolls post with O => [] | S k => OItem v CFalse :: repeat OEnd k end
   | DropNotifier :: post => repeat OEnd (npolls post)
   | PollOnce :: r => OPending :: once_expect r
   | _ :: r => once_expect r
